@@ -1458,3 +1458,88 @@ Proof.
     apply scan_exact_lemma; [exact Hok|cbv iota; lia].
   - apply scan_exact_lemma; [exact Hok|cbv iota; lia].
 Qed.
+
+(* ================================================================== TxIndex and its memo *)
+
+Lemma tx_index_from_snoc : forall msgs k id m,
+  tx_index_from k msgs id <> (-1)%Z ->
+  tx_index_from k (msgs ++ [m]) id = tx_index_from k msgs id.
+Proof.
+  induction msgs as [|x r IH]; intros k id m H; cbn [tx_index_from app] in *; [contradiction|].
+  destruct (Nat.eqb (m_id x) id); [reflexivity|]. apply IH. exact H.
+Qed.
+
+(* every remembered answer is the answer of a scan over the current records,
+   and a found one *)
+Definition cache_ok (msgs : list msg) (cache : tx_cache) : Prop :=
+  forall id i, cache_get cache id = Some i -> i = tx_index msgs id /\ (0 <= i)%Z.
+
+Lemma cache_ok_snoc : forall msgs cache m, cache_ok msgs cache -> cache_ok (msgs ++ [m]) cache.
+Proof.
+  intros msgs cache m H id i Hg. destruct (H id i Hg) as [E P]. split; [|exact P].
+  unfold tx_index in *. rewrite tx_index_from_snoc; [exact E|]. rewrite <- E. lia.
+Qed.
+
+Lemma memo_correct : forall msgs cache id,
+  cache_ok msgs cache ->
+  fst (tx_index_memo cache msgs id) = tx_index msgs id /\
+  cache_ok msgs (snd (tx_index_memo cache msgs id)).
+Proof.
+  intros msgs cache id H. unfold tx_index_memo.
+  destruct (cache_get cache id) as [i|] eqn:G.
+  - cbn [fst snd]. split; [apply (H id i G)|exact H].
+  - cbv zeta. destruct (Z.ltb (-1) (tx_index msgs id)) eqn:E; cbn [fst snd]; (split; [reflexivity|]);
+      [|exact H].
+    apply Z.ltb_lt in E. intros id' i' Hg. cbn [cache_get] in Hg.
+    destruct (Nat.eqb id id') eqn:Eid.
+    + apply Nat.eqb_eq in Eid. subst id'. injection Hg as <-. split; [reflexivity|lia].
+    + apply (H id' i' Hg).
+Qed.
+
+Lemma store_arrived_cons : forall e r,
+  store_arrived (e :: r) = (match e with SArrive m => [m] | SLookup _ => [] end) ++ store_arrived r.
+Proof. intros. reflexivity. Qed.
+
+Lemma store_run_ok : forall evs s,
+  cache_ok (fst s) (snd s) ->
+  let s' := store_run tx_index_memo s evs in
+  fst s' = fst s ++ store_arrived evs /\ cache_ok (fst s') (snd s').
+Proof.
+  induction evs as [|e r IH]; intros s H; cbv zeta.
+  - cbn. rewrite app_nil_r. split; [reflexivity|exact H].
+  - unfold store_run in *. cbn [fold_left]. rewrite store_arrived_cons.
+    destruct e as [m|id]; cbn [store_step].
+    + specialize (IH (fst s ++ [m], snd s)). cbv zeta in IH. cbn [fst snd] in IH.
+      destruct (IH (cache_ok_snoc _ _ m H)) as [A B].
+      split; [rewrite A, <- app_assoc; reflexivity|exact B].
+    + destruct (memo_correct (fst s) (snd s) id H) as [_ C].
+      specialize (IH (fst s, snd (tx_index_memo (snd s) (fst s) id))). cbv zeta in IH.
+      cbn [fst snd] in IH. destruct (IH C) as [A B].
+      split; [rewrite A; reflexivity|exact B].
+Qed.
+
+(* whatever was looked up before, and when: TxIndex answers what a linear
+   scan over the records received so far answers *)
+Lemma tx_index_history_lemma : forall (evs : list store_event) (id : nat),
+  let s := store_run tx_index_memo ([], []) evs in
+  fst s = store_arrived evs /\
+  fst (tx_index_memo (snd s) (fst s) id) = tx_index_scan (store_arrived evs) id.
+Proof.
+  intros evs id. cbv zeta.
+  assert (H0 : cache_ok (fst (@nil msg, @nil (nat * Z))) (snd (@nil msg, @nil (nat * Z)))).
+  { intros i j Hg. discriminate. }
+  destruct (store_run_ok evs ([], []) H0) as [A B]. cbn [fst app] in A.
+  split; [exact A|].
+  destruct (memo_correct _ _ id B) as [C _]. rewrite C, A. apply tx_index_spec_lemma.
+Qed.
+
+(* a memo that remembers misses as well is NOT: the id asked for before its
+   record arrived stays "not found" *)
+Lemma tx_index_memo_of_misses_refuted_lemma :
+  exists (evs : list store_event) (id : nat),
+    let s := store_run tx_index_memo_all ([], []) evs in
+    fst (tx_index_memo_all (snd s) (fst s) id) <> tx_index_scan (store_arrived evs) id.
+Proof.
+  exists [SLookup 0; SArrive (mkMsg 0 [1%N] 1 0 0 1 true false false false [0] [])], 0.
+  vm_compute. discriminate.
+Qed.
